@@ -26,7 +26,7 @@ rm $wt/$dd/zz_seeded_demo_test.go
 echo "clean-tree demo: $clean"; echo "patched suite: $suite"; echo "patched demo: $demo"
 res=""
 for c in $checks; do
-  for tier in quick thorough; do
+  for tier in ${TIERS:-quick thorough}; do
     out=$(cd $V && WZ_REPO=$wt timeout 3000 ./check $c --tier $tier 2>/dev/null | grep -E '^(VIOLATION|KNOWN)' | head -5); rc=$?
     v=$(echo "$out" | grep -c '^VIOLATION')
     echo "check $c $tier: violations=$v"; echo "$out" | grep '^VIOLATION' | head -3
